@@ -12,13 +12,15 @@ RULE = ("all grammars of depth <= 2 over an 8-leaf pool x all strings of length 
         "not from the objects' flags) vs the implementation, incl. a family of '&' (Each) grammars over plain / Opt / ZeroOrMore / OneOrMore operands with "
         "permuted and repeated operand inputs; (v) the extracted model of Each.parseImpl vs the implementation (outcome class, location, message, "
         "tokens, names) on that family and on a second one (random deep grammars with '&' nodes, results names, error stops, operands that can "
-        "match empty, the same operand twice, Opt(x) & x, named repetitions); non-trivial = grammar with >= 3 nodes and non-empty input")
+        "match empty, the same operand twice, Opt(x) & x, named repetitions), and the Coq reading `peg` (case peg_each) vs the implementation on those "
+        "of them that are in the reference class; non-trivial = grammar with >= 3 nodes and non-empty input")
 TRUSTED = pcommon.TRUSTED_PARSE + [
     "the reading `peg` (coq/Model/Peg.v) is the formal statement of the property; `in_class` delimits what is proved "
     "(Or, Combine, stop_on are compared with the reference by correspondence only; SkipTo only model-vs-implementation)",
-    "Each ('&') is in the Coq model (Model/Core.v each_impl) but outside the proved class `in_class`: it is covered by correspondence only "
-    "(model vs implementation, and implementation vs tools/harness/peg_ref.py, a transcription of the property's reading); the model takes the "
-    "children's mayReturnEmpty flags and the `==` classes of the operands (ParserElement.__eq__ is `vars(self) == vars(other)`) from the dump"]
+    "Each ('&'): the model (Model/Core.v each_impl) takes the children's mayReturnEmpty flags and the `==` classes of the operands "
+    "(ParserElement.__eq__ is `vars(self) == vars(other)`) from the dump (tools/harness/dump.py each_info); `in_class` contains the Each nodes none of "
+    "whose required operands may return empty (for the others the implementation violates the reading: C01_each_once_refuted); Each with results "
+    "names / actions / such operands is covered by correspondence only"]
 
 
 def peg_of_real(o):
@@ -135,7 +137,7 @@ def each_family(ctx):
             s = " ".join(p for p in pieces if p)
             inputs.add(s)
             inputs.add(gen.mutate_input(rng, s, "abcxyz12 "))
-        groups.append((g, {}, sorted(inputs), [("none",)], [("parse", False)]))
+        groups.append((g, {}, sorted(inputs), [("none",)], [("parse", False), ("peg",)]))
         for inp in sorted(inputs):
             a = pcommon.single(g, {}, inp, ("none",), ("parse", False)) if False else None
             want = peg_ref.reading(g, {}, inp)
@@ -178,7 +180,7 @@ def each_family(ctx):
             s = gen.sample_input(rng2, g, {})[:60]
             inputs.add(s)
             inputs.add(gen.mutate_input(rng2, s, "abcxyz12 "))
-        groups.append((g, {}, sorted(inputs), [("none",)], [("parse", False)]))
+        groups.append((g, {}, sorted(inputs), [("none",)], [("parse", False), ("peg",)]))
     stats = {}
     recs = corr.run_groups(groups, stats=stats)
     from tools.harness import observe
@@ -190,10 +192,25 @@ def each_family(ctx):
             r["real"] = observe.run_real(r["root"], r["dumper"], r["inp"], r["mode"], r["entry"], timeout=20)
             r["agree"] = corr.proj_all(r["model"]) == corr.proj_all(r["real"])
     ctx.stat("each_model_unsupported_grammars", stats.get("unsupported", 0))
-    for r in recs:
+    parse_recs = [r for r in recs if r["entry"][0] == "parse"]
+    pegs = {(repr(r["g"]), r["inp"]): r for r in recs if r["entry"][0] == "peg"}
+    for r in parse_recs:
         ctx.case("each-model:" + pcommon.key_of(r), len(r["inp"]) >= 3, r.get("agree", True))
         ctx.stat("each_model_outcome_" + corr.kind_of(r["real"]))
-    pcommon.model_agreement(ctx, recs, "each-parse-outcomes")
+        # (c) the Coq reference reading `peg` (its '&' case is peg_each) vs the implementation, on the grammars of the
+        # reference class (in_ref_class excludes Each nodes with a required operand that may return empty)
+        p = pegs.get((repr(r["g"]), r["inp"]))
+        if p is None or p["model"][0] != "peg" or not p["model"][2]:
+            continue
+        ctx.stat("each_cases_in_reference_class")
+        ctx.stat("each_cases_in_proved_class", int(p["model"][1]))
+        want, got = peg_of_ref(p["model"][3]), peg_of_real(r["real"])
+        if want != got and "div" not in (want[0], got[0]):
+            ctx.violation("peg-each:%r|%r" % (r["g"], r["inp"]),
+                          "parse_string of %r on %r gives %r but the PEG reading (Model/Peg.v peg_each) gives %r%s" % (
+                              r["g"], r["inp"], got, want, " [grammar is in the proved class]" if p["model"][1] else ""),
+                          {"kind": "peg", "grammar": r["g"], "env": {}, "input": r["inp"]})
+    pcommon.model_agreement(ctx, parse_recs, "each-parse-outcomes")
 
 
 def each_impl(g, inp):
